@@ -79,6 +79,9 @@ pub struct AymPrecise {
     /// Verification hook: DAC level index (0..31) of channels A, B, C for every chip tick
     #[cfg(rustzx_verif)]
     verif_levels: alloc::vec::Vec<[u8; 3]>,
+    /// Verification hook: recording of level indices is off until requested
+    #[cfg(rustzx_verif)]
+    verif_record: bool,
 }
 
 #[rustfmt::skip]
@@ -188,6 +191,8 @@ impl AymPrecise {
             dc_filter: false,
             #[cfg(rustzx_verif)]
             verif_levels: alloc::vec::Vec::new(),
+            #[cfg(rustzx_verif)]
+            verif_record: false,
         };
 
         this.step = clock_rate / (sample_rate as f64 * 8f64 * DECIMATE_FACTOR as f64);
@@ -371,7 +376,7 @@ impl AymPrecise {
             };
             assert!(out < 32);
             #[cfg(rustzx_verif)]
-            {
+            if self.verif_record {
                 if i == 0 {
                     self.verif_levels.push([0; 3]);
                 }
@@ -486,6 +491,12 @@ fn apply_dc_filter_for_sample(dc: &mut DcFilter, index: usize, x: f64) -> f64 {
 }
 
 impl AymPrecise {
+    /// Verification hook: switches recording of per-tick DAC level indices on or off
+    #[cfg(rustzx_verif)]
+    pub fn verif_record_levels(&mut self, on: bool) {
+        self.verif_record = on;
+    }
+
     /// Verification hook: takes the per-tick DAC level indices recorded since the last call
     #[cfg(rustzx_verif)]
     pub fn verif_take_levels(&mut self) -> alloc::vec::Vec<[u8; 3]> {
